@@ -300,6 +300,7 @@ def cases(tier):
 
     add("gd")
     add("gd-cons", cons=['le', 'ge', 'eq'])
+    add("gd-dup", cons=['le'], dup=True)        # the same Constraint object declared twice: one row per declaration
     add("gd-lmi", lmis=['sym2'])
     add("gd-two-lmis", lmis=['sym2', 'one'])
     add("lmi-objects-reversed", lmis=['sym2', 'one'], lmi_objects=True, lmi_reversed=True)
